@@ -50,9 +50,10 @@ class Scenario:
         self.ns = self.nw = 1
         self.env = {}
         self.profile = ""
+        self.watchdog = 25
 
-    def lines(self, watchdog=25):
-        out = ["K %d" % watchdog]
+    def lines(self, watchdog=None):
+        out = ["K %d" % (watchdog or self.watchdog)]
         for tag in sorted(self.tasks):
             t = self.tasks[tag]
             out.append("T %d %d %d %d %d %d %s" % (tag, t["variant"], t["target"], t["asize"], t["retkind"], t["pre"],
@@ -60,7 +61,7 @@ class Scenario:
         return out
 
     def to_json(self):
-        return {"config": [self.ns, self.nw], "env": self.env, "profile": self.profile, "script": self.lines()}
+        return {"config": [self.ns, self.nw], "env": self.env, "profile": self.profile, "watchdog": self.watchdog, "script": self.lines()}
 
 
 def gen_scenario(rng, ns, nw, profile, argcopy=1024, ntasks=None, allow_subteam=False):
@@ -174,12 +175,55 @@ def gen_scenario(rng, ns, nw, profile, argcopy=1024, ntasks=None, allow_subteam=
     return sc
 
 
+def gen_steal_scenario(rng, ns, layout=None, chunk=None):
+    """Two-run steal: every other shepherd is held busy by a pinned task that spins (no yield) until released; meanwhile the
+    main task (on shepherd 0, never yielding) lays out stealable tasks S and tasks U pinned to shepherd 0 on shepherd 0's
+    queue, then releases the others, which steal across the unstealable nodes (second run of stolen nodes is spliced to
+    the first).  Every tag must start and finish exactly once."""
+    sc = Scenario()
+    sc.ns, sc.nw, sc.profile, sc.watchdog = ns, 1, "steal", 10
+    main = dict(variant=0, target=-1, asize=0, retkind=0, pre=-1, ops=[], parent=None)
+    sc.tasks[0] = main
+    tag = 0
+    for s_ in range(1, ns):
+        tag += 1
+        sc.tasks[tag] = dict(variant=V["FORK_TO"], target=s_, asize=0, retkind=0, pre=-1, ops=["h0"], parent=0)
+        main["ops"].append("c%d" % tag)
+    for t in range(1, ns):
+        main["ops"].append("a%d" % t)
+    if layout is None:
+        n_s = rng.range(6, 14)
+        n_u = rng.choice([1, 1, 1, 2])
+        cells = ["S"] * n_s
+        for _ in range(n_u):
+            cells.insert(rng.range(2, len(cells) - 2) if rng.chance(4, 5) else rng.range(0, len(cells)), "U")
+        layout = "".join(cells)
+    for c in layout:
+        tag += 1
+        if c == "U":
+            t = dict(variant=V["FORK_TO"], target=0, asize=0, retkind=0, pre=-1, ops=[], parent=0)
+        else:
+            v = rng.choice([V["FORK"], V["FORK"], V["COPYARGS"], V["SYNCVAR"], V["NET"]])
+            t = dict(variant=v, target=-1, asize=(rng.choice([8, 64, 1025]) if v == V["COPYARGS"] else 0), retkind=0, pre=-1, ops=[], parent=0)
+        t["ops"] = rng.choice([[], [], ["y"], ["u2"], ["y", "y"]])
+        sc.tasks[tag] = t
+        main["ops"].append("c%d" % tag)
+    main["ops"].append("r0")
+    ch = rng.choice([0, 1, 3, 5]) if chunk is None else chunk
+    if ch:
+        sc.env["QT_STEAL_CHUNK"] = ch
+    sc.layout = layout
+    return sc
+
+
 # ------------------------------------------------------------------ running
-def run_scenario(exe, sc, timeout=60, watchdog=25):
+def run_scenario(exe, sc, timeout=None):
     env = core.qenv(sc.ns, sc.nw, stack=65536, **sc.env)
-    rc, out, err = core.run_lines(exe, sc.lines(watchdog), timeout=timeout, env=env)
+    rc, out, err = core.run_lines(exe, sc.lines(), timeout=timeout or (sc.watchdog + 35), env=env)
     if not out or not out[0].startswith("H "):
-        return dict(status="nostart", rc=rc, err=err[-400:], header=None, events=[], tail="")
+        # killed by a signal before the header was out: the real code crashed (runtime start-up); anything else is a
+        # harness that cannot run at all
+        return dict(status="crash" if rc < 0 else "nostart", rc=rc, err=err[-400:], header=None, events=[], tail="")
     hdr = out[0]
     lists = [l for l in out[1:] if l.startswith("L ")]
     ev = [l for l in out[1:] if l and l[0].isdigit()]
@@ -264,12 +308,16 @@ def oracle_c04(sc, res, evs=None):
         missing = [t for t in sc.tasks if t and ends.get(t, 0) == 0]
         fails.append("run did not complete within the watchdog; tasks not finished: %s" % missing[:12])
     elif res["status"] in ("crash", "nostart"):
-        fails.append("the runtime crashed (rc=%s) %s" % (res["rc"], res["err"][-200:]))
+        copies = sorted(set((VNAME[t["variant"]], t["asize"]) for t in sc.tasks.values() if t.get("asize")))
+        fails.append("the real runtime crashed (%s) while running this scenario on %dx%d%s; argument copies in it (variant, arg_size): %s" % (
+            ("signal %d" % -res["rc"]) if res["rc"] < 0 else ("rc=%s" % res["rc"]), sc.ns, sc.nw,
+            (" with " + " ".join("%s=%s" % kv for kv in sc.env.items())) if sc.env else "", copies[:12]))
     return fails
 
 
 def probe_thread_new(ctx, exe, drv, argcopies):
-    """M1: qthread_thread_new / qthread_thread_free on a live runtime vs thread_new_flags / thread_new_where"""
+    """M1: qthread_thread_new / qthread_thread_free on a live runtime vs thread_new_flags / thread_new_where.
+    A crash of the real code inside the probe is a failing input (argcopy size, arg_size), not a build problem."""
     mism, orc, n = [], [], 0
     for ac in argcopies:
         sizes = sorted(set([0, 1, 2, 7, 8, 9, 63, 64, 65, max(0, ac - 1), ac, ac + 1, 2 * ac, 2 * ac + 1, 4096, 70000] +
@@ -277,19 +325,29 @@ def probe_thread_new(ctx, exe, drv, argcopies):
         env = core.qenv(1, 1, stack=65536) if ac == 1024 else core.qenv(1, 1, stack=65536, QT_ARGCOPY_SIZE=ac)
         rc, out, err = core.run_lines(exe, [str(s) for s in sizes], timeout=60, env=env, args=["probe"])
         if not out or not out[0].startswith("H "):
+            if rc < 0:
+                orc.append(("the real runtime crashed (signal %d) while starting for the qthread_thread_new probe (QT_ARGCOPY_SIZE=%d)" % (-rc, ac),
+                            dict(kind="thread_new_probe", argcopy=ac, sizes=sizes)))
+                continue
             raise core.BuildError("c04 probe did not start: rc=%s %s" % (rc, err[-300:]))
         real_ac = int(out[0].split()[3])
         rc2, mout, _ = core.run_lines(drv, ["X new %d %d" % (real_ac, s) for s in sizes], timeout=60)
         plines = [l for l in out[1:] if l.startswith("P ")]
         if len(plines) != len(sizes):
-            orc.append(("qthread_thread_new probe crashed after %d of %d sizes (argcopy %d)" % (len(plines), len(sizes), real_ac), dict(argcopy=real_ac, sizes=sizes)))
+            died = sizes[len(plines)]
+            orc.append(("qthread_thread_new/qthread_thread_free crashed (%s) in the probe at arg_size=%d with argcopy size %d (sizes done before: %s)" % (
+                ("signal %d" % -rc) if rc < 0 else "rc=%s" % rc, died, real_ac, sizes[:len(plines)][-4:]),
+                dict(kind="thread_new_probe", argcopy=real_ac, arg_size=died, sizes=sizes)))
         for s, pl, ml in zip(sizes, plines, mout):
             n += 1
             p = pl.split(); m = ml.split()
             flags = int(p[2]) & ((1 << 6) | (1 << 9)); where = int(p[3]); eq = int(p[4]); stable = int(p[5]); state = int(p[6]); notgt = int(p[7])
-            case = dict(argcopy=real_ac, arg_size=s, impl=pl, model=ml)
-            if (flags, where) != (int(m[1]), int(m[2])) or state != 1 or notgt != 1:
+            pool = int(p[9]) if len(p) > 9 else -1
+            case = dict(kind="thread_new_probe", argcopy=real_ac, arg_size=s, impl=pl, model=ml)
+            if (flags, where) != (int(m[1]), int(m[2])) or state != 1 or notgt != 1 or pool != (1 if int(m[2]) == 1 else 0):
                 mism.append(("thread_new", case))
+            if where == 1 and pool != 1:
+                orc.append(("qthread_thread_new(arg_size=%d, argcopy size %d): %d bytes are copied into data[] of a descriptor taken from the SMALL pool (no room: the copy overruns the neighbouring descriptors)" % (s, real_ac, s), case))
             if not eq or not stable:
                 orc.append(("qthread_thread_new(arg_size=%d): the descriptor's argument %s" % (s, "differs from the source bytes" if not eq else "changed when the source was overwritten"), case))
             if s == 0 and where != 0:
@@ -309,6 +367,8 @@ def run_batch(ctx, exe, drv, scenarios, oracles, repeat=1):
             stats["runs"] += 1
             if res["status"] == "nostart":
                 raise core.BuildError("c04 harness did not start on %dx%d: rc=%s %s" % (sc.ns, sc.nw, res["rc"], res["err"]))
+            if res["status"] == "crash" and res["header"] is None:
+                res["tail"] = ""
             if res["status"] == "overflow":
                 ctx.notes.append("event log overflow on a scenario (skipped)")
                 continue
@@ -329,7 +389,8 @@ def run_batch(ctx, exe, drv, scenarios, oracles, repeat=1):
             if skip_acceptor:
                 continue
             if res["status"] != "end":
-                corr.append(("the real runtime did not finish a script the model says terminates (%s)" % res["status"], replay))
+                corr.append(("the real runtime did not finish a script the model says terminates (%s%s)" % (
+                    res["status"], (", signal %d" % -res["rc"]) if res["status"] == "crash" and res["rc"] < 0 else ""), replay))
                 continue
             ok, reason, fin, nl, racy = accept(drv, sc, res)
             stats["labels"] += nl; stats["racy"] += racy
@@ -405,6 +466,7 @@ def scenario_from_json(j):
     sc.ns, sc.nw = j["config"]
     sc.env = j.get("env", {})
     sc.profile = j.get("profile", "corpus")
+    sc.watchdog = j.get("watchdog", 25)
     for l in j["script"]:
         p = l.split()
         if p[0] != "T":
@@ -439,6 +501,10 @@ def run(ctx):
             elif c == 1 and ns > 1:
                 sc.env["QT_STEAL_CHUNK"] = r.choice([1, 2, 8])
             scenarios.append(sc)
+    # steal across unstealable nodes (two or more runs of stolen nodes), 2x1 and 3x1, all chunk settings
+    r = rng.fork()
+    for i in range(8 if quick else 40):
+        scenarios.append(gen_steal_scenario(r, r.choice([2, 2, 3])))
     # a few scenarios with sub-team leaders: oracle only (their runtime-internal watcher tasks are outside the model)
     r = rng.fork()
     for i in range(3 if quick else 12):
@@ -468,6 +534,11 @@ def replay(ctx, path):
     print(json.dumps(j, indent=1)[:3000])
     rep = j.get("replay", {})
     cand = rep.get("failing_input") or (rep.get("first_mismatch") or [None, None])[1] or rep
+    if isinstance(cand, dict) and cand.get("kind") == "thread_new_probe":
+        exe, drv, _ = prepare(ctx)
+        n1, mism1, orc1 = probe_thread_new(ctx, exe, drv, [cand["argcopy"]])
+        corr = [("qthread_thread_new differs from the model: %s" % json.dumps(c), c) for (_, c) in mism1]
+        return verdict(ctx, "C04", [], corr, orc1)
     if not isinstance(cand, dict) or "script" not in cand:
         return run(ctx)
     exe, drv, _ = prepare(ctx)
